@@ -13,4 +13,23 @@ extern int vh_nofork;
 
 int fam_mul(const vh_args_t *a);
 void vh_mul_case(int route, int m, int l, int n, int kindA, int kindB, int param, int cnull);
+
+/* operand factory: a fresh owner, or (views mode, C09) a window at a random placement inside a
+ * larger junk-filled parent. force: -1 per global mode, 0 owner, 1 window */
+extern int vh_views;
+mzd_t *vh_mk(rci_t m, rci_t n, int force);
+mzd_t *vh_mk_kind(rci_t m, rci_t n, int kind);
+int vh_pick(const int *list, int n);
+int vh_dim_small(int cap); /* boundary-biased dimension in 1..cap */
+void vh_simple_begin(vh_ev_t *e, const char *op);
+
+int fam_move(const vh_args_t *a);
+int fam_rowops(const vh_args_t *a);
+int fam_obs(const vh_args_t *a);
+int fam_elim(const vh_args_t *a);
+int fam_ple(const vh_args_t *a);
+int fam_trsm(const vh_args_t *a);
+int fam_inv(const vh_args_t *a);
+int fam_solve(const vh_args_t *a);
+int fam_kernel(const vh_args_t *a);
 #endif
